@@ -66,6 +66,19 @@ def verify_function(e: Engine, qname: str) -> FunctionResult:
     e.call_counts = {}
     e.nested_defs = {}
     e.interest = {}
+    # stable statement labels for ghost anchors: <StmtType>#<ordinal in source order>
+    e.stmt_labels = {}
+    counts = {}
+
+    def number(node):
+        for ch in ast.iter_child_nodes(node):
+            if isinstance(ch, ast.stmt):
+                tn = type(ch).__name__
+                counts[tn] = counts.get(tn, 0) + 1
+                e.stmt_labels[id(ch)] = f"{tn}#{counts[tn]}"
+            if not isinstance(ch, (ast.FunctionDef, ast.Lambda, ast.ClassDef)) or ch is fi.node:
+                number(ch)
+    number(fi.node)
     start = len(e.obls)
     try:
         st = State()
@@ -162,6 +175,14 @@ def check_post(e: Engine, c: Contract, st: State, val: SV, entry: State):
         except Unsupported:
             pass
     bound = {}
+    # ghost lemma steps that need the returned value
+    from . import loops
+    if any(g.anchor == "at:return" for g in e.reg.ghost.get(e.fn.qname, [])):
+        st.store["result"] = val
+        try:
+            loops.run_ghost(e, st, "at:return")
+        finally:
+            st.store.pop("result", None)
     for name, expr in c.ensures.items():
         g = e.eval_spec(expr, st, bound, val, entry, c)
         e.emit(f"post:{name}", g, st, kind="post")
@@ -212,3 +233,27 @@ def check_frame(e: Engine, c: Contract, st: State, entry: State):
         same = And(*[z3.Select(a, o) == z3.Select(b, o) for a, b in zip(arrs, init)])
         g = z3.ForAll([o], Implies(And(z3.Select(entry.alive, o), *excl), same))
         e.emit(f"frame:{key}", g, st, kind="post")
+
+
+def lemma_obligations(e: Engine) -> List[Obligation]:
+    """Stand-alone obligations for the closed lemmas that were instantiated with use_lemma()."""
+    out = []
+    for lem in e.reg.lemmas:
+        if lem["name"] not in getattr(e, "lemmas_used", set()):
+            continue
+        st = State()
+        env = {}
+        for pdecl in lem["params"]:
+            pn, pt = pdecl.split(":")
+            sv = fresh_sv(parse_type(pt), f"lem_{pn}", optional=False)
+            sv.none = FALSE
+            env[pn] = sv
+        saved = (e.spec_mode, e.pending_raises, e.guards, e.lambda_env)
+        e.spec_mode, e.pending_raises, e.guards, e.lambda_env = True, [], [], [env]
+        try:
+            g = e.truthy(st, e.ev(ast.parse(lem["statement"].strip(), mode="eval").body, st))
+        finally:
+            e.spec_mode, e.pending_raises, e.guards, e.lambda_env = saved
+        o = Obligation(f"lemma/{lem['name']}", list(st.pc), g, {}, "", "lemma")
+        out.append(o)
+    return out
